@@ -261,7 +261,7 @@ func overlayDirtyRules(c *Ctx, rule string) {
 			continue
 		}
 		var marks []ssa.Instruction
-		for _, b := range fn.Blocks {
+		for _, b := range blocksIP(fn) {
 			for _, in := range b.Instrs {
 				if mu, ok := in.(*ssa.MapUpdate); ok && strings.HasSuffix(vstr(mu.Map), "param:o.dirty") && vstr(mu.Value) == "true" {
 					marks = append(marks, in)
@@ -293,7 +293,7 @@ func overlayDirtyRules(c *Ctx, rule string) {
 	// after a commit the overlay is a transparent view again: its dirty set and pending writes are reset
 	if fn := c.needFn(rule, "storage/mkvs.(*treeOverlay).Commit"); fn != nil {
 		var resets []ssa.Instruction
-		for _, b := range fn.Blocks {
+		for _, b := range blocksIP(fn) {
 			for _, in := range b.Instrs {
 				switch x := in.(type) {
 				case *ssa.Store:
@@ -317,7 +317,7 @@ func overlayDirtyRules(c *Ctx, rule string) {
 	// or the inner iterator is exhausted
 	if fn := c.needFn(rule, "storage/mkvs.(*treeOverlayIterator).updateIteratorPosition"); fn != nil {
 		var adopt []ssa.Instruction
-		for _, b := range fn.Blocks {
+		for _, b := range blocksIP(fn) {
 			for _, in := range b.Instrs {
 				if st, ok := in.(*ssa.Store); ok && (vstr(st.Addr) == "param:it.key" || vstr(st.Addr) == "param:it.value") && strings.Contains(vstr(st.Val), "param:it.inner.") {
 					adopt = append(adopt, in)
